@@ -58,7 +58,7 @@ def one(spec, batch, stats, cap, prop):
     b = GR.build(spec)
     try:
         g = extract_grammar(b.considered, b.start)
-        decl = declared_grammar(list(b.classes.values()), b.start)
+        decl = b.oracle()
         mind = int(g.get_min_tree_depth())
         evs = []
         for decider in ("grow", "pigrow", "full"):
@@ -105,7 +105,7 @@ def one_redeclared(spec, batch, stats, cap):
         if not changed:
             return
         g = extract_grammar(b.considered, b.start)
-        decl = declared_grammar(list(b.classes.values()), b.start)     # read again: the declaration as it now stands
+        decl = b.oracle()     # read again: the declaration as it now stands
         mind = int(g.get_min_tree_depth())
         evs = []
         for d in range(max(mind, 1), mind + 2):
@@ -130,7 +130,7 @@ def one_c10(spec, batch, stats, cap):
     b = GR.build_raw(spec) if "source" in spec else GR.build(spec)
     try:
         g = extract_grammar(b.considered, b.start)
-        decl = declared_grammar(list(b.classes.values()), b.start)
+        decl = b.oracle()
         mind = int(g.get_min_tree_depth())
         d = mind + 1
         r = enumerate_set(g, "grow", d, cap)
